@@ -551,6 +551,25 @@ func runC06(r *vk.Run) {
 			line = writeLogfmt(withDup)
 			c.Count("logfmt_lines_with_duplicate_key", 1)
 		}
+		if dupKey == "" && len(pairs) >= 1 && rng.Chance(1, 5) {
+			// a line may hold a line break (multi-line records, a trailing terminator in front): the fields
+			// after it are fields of the line all the same
+			var parts []string
+			for i := range pairs {
+				parts = append(parts, writeLogfmt(pairs[i:i+1]))
+			}
+			at := rng.Intn(len(parts))
+			line = ""
+			for i, p := range parts {
+				if i == at {
+					line += vk.Pick(rng, []string{"\n", " \n", "\n\n", "\r\n"})
+				} else if i > 0 {
+					line += " "
+				}
+				line += p
+			}
+			c.Count("logfmt_lines_with_line_break", 1)
+		}
 		dupLabel := map[string]bool{}
 		switch variant {
 		case 0:
